@@ -555,7 +555,7 @@ class SlidingWindowView(Blockwise):
                 ):
                     # The overlap path would coarsen chunks up to the window;
                     # compute on the input's native chunks instead.
-                    return SlidingWindowReduction(
+                    native = SlidingWindowReduction(
                         rechunk.array,
                         window,
                         sliding_axis,
@@ -564,6 +564,7 @@ class SlidingWindowView(Blockwise):
                         reducer,
                         parent.dtype,
                     )
+                    return self._unless_grid_observed(parent, dependents, native)
 
                 # The parent reduction removes the materialized window axis, so
                 # keep automatic rechunking limited to the rolling axis.
@@ -603,7 +604,7 @@ class SlidingWindowView(Blockwise):
         chunks = tuple(chunks)
 
         dtype = parent.dtype
-        return map_blocks(
+        fused = map_blocks(
             _sliding_window_reduce_block,
             new_collection(reduced_input_expr),
             chunks=chunks,
@@ -621,6 +622,16 @@ class SlidingWindowView(Blockwise):
             keepdims=parent.keepdims,
             reduced_axis=window_axis,
         ).expr
+        return self._unless_grid_observed(parent, dependents, fused)
+
+    def _unless_grid_observed(self, parent, dependents, fused):
+        """``fused`` replaces the reduction ``parent`` -- unless it runs on
+        another block grid than the reduction advertises while something above
+        holds a per-block literal of the advertised grid (map_blocks(chunks=...),
+        repeat, .blocks, ...): then the reduction stays as it was built."""
+        if fused.chunks != parent.chunks and self._has_grid_sensitive_dependent(parent, dependents):
+            return None
+        return fused
 
 
 def trim_overlap(x, depth, boundary=None):
